@@ -96,6 +96,19 @@ impl Stepper {
     }
 
     pub fn from_kanata(k: Kanata, mode: Mode) -> Stepper {
+        let mut st = Stepper::from_kanata_inner(k, mode);
+        if mode == Mode::Blocking {
+            // the processing loop starts by asking whether it can block; from a freshly started
+            // (idle) instance it does, so the first event is handled as a wake-up (found by comparing
+            // with the real loop thread, executor B)
+            if st.k.can_block_update_idle_waiting(0) {
+                st.blocked = true;
+            }
+        }
+        st
+    }
+
+    fn from_kanata_inner(k: Kanata, mode: Mode) -> Stepper {
         Stepper {
             mapped: None,
             dropped_unmapped: 0,
@@ -300,8 +313,14 @@ impl Stepper {
             }
             self.owed_tick = true;
         } else if !self.owed_tick {
-            // loop top of the iteration that finds the event with try_recv
-            let _ = self.can_block();
+            // loop top of the iteration that finds the event: if the loop can block it calls recv(),
+            // which returns the waiting event at once and is followed by the wake-up tick (found by
+            // comparing with the real loop thread, executor B); otherwise try_recv
+            let cb = self.can_block();
+            if cb && self.mode == Mode::Blocking {
+                self.blocked = true;
+                self.owed_tick = true;
+            }
         }
         self.blockable = false;
     }
